@@ -103,7 +103,7 @@ def gen_iter_cases(ctx):
         for combo in itertools.product(opts, repeat=ns):
             yield dict(stream="iter", srcs=[[[d, dist] for dist, d in c] for c in combo], R=2,
                        family="exh3")
-    n = ctx.n(1500, 40000)
+    n = ctx.n(1500, 30000)
     for i in range(n):
         rng = ctx.rng("iter", i)
         if i % 25 == 24:
@@ -314,7 +314,10 @@ class _Timeout(Exception):
     pass
 
 
-def _guarded(fn, seconds=20):
+MAX_ITERS = {"numba": 20000, "nonrecursive": 50000, "recursive": 50000}   # see run_iter_case
+
+
+def _guarded(fn, seconds=120):
     """run fn() with an alarm (a mutated loop may not terminate)"""
     import signal
 
@@ -332,7 +335,7 @@ def _guarded(fn, seconds=20):
         signal.signal(signal.SIGALRM, old)
 
 
-def run_iter_impls(inp):
+def run_iter_impls(inp, skip=()):
     """-> dict name -> ('ok', order, chosen, iters|None) | ('oversize',) | ('exception', repr)
     order = input indices of the sources in the order the function uses/returns them,
     chosen = destination index or None per entry of `order`."""
@@ -358,7 +361,8 @@ def run_iter_impls(inp):
         except SubnetOversizeException:
             out[name] = ("oversize",)
         except _Timeout:
-            out[name] = ("exception", "no termination within 20 s")
+            out[name] = ("exception", "no termination within 120 s although the model needs "
+                                      "< %d loop iterations" % MAX_ITERS[name])
         except Exception as e:                                  # judged by the caller
             out[name] = ("exception", "%s: %s" % (type(e).__name__, e))
 
@@ -407,9 +411,11 @@ def run_iter_impls(inp):
         return ("ok", [idx_s[id(p)] for p in spl], [dd(d) for d in dpl],
                 counts[0] if len(counts) == 1 else None)
 
-    call("recursive", recur)
-    call("nonrecursive", nonrec)
-    call("numba", numba)
+    for name, fn in (("recursive", recur), ("nonrecursive", nonrec), ("numba", numba)):
+        if name in skip:
+            out[name] = ("skipped",)
+        else:
+            call(name, fn)
     return out
 
 
@@ -444,14 +450,25 @@ def run_iter_case(ctx, inp):
     res.stat("iter_cases")
     if inp.get("family"):
         res.stat("iter_family_" + inp["family"])
-    impl = run_iter_impls(inp)
     models = {"recursive": ctx.ask("RECUR " + line), "nonrecursive": ctx.ask("NONREC " + line),
               "numba": ctx.ask("NUMBA " + line)}
+    # the interpreted loops cost 5-50 us per iteration: inputs on which the (native) model needs
+    # more than MAX_ITERS iterations are not run through that loop (counted, never judged)
+    skip = set()
+    for name, mname in (("numba", "numba"), ("nonrecursive", "nonrecursive"),
+                        ("recursive", "nonrecursive")):
+        it = common.kv(models[mname]).get("iters")
+        if it is not None and int(it) > MAX_ITERS[name]:
+            skip.add(name)
+            res.stat("iter_skipped_long_" + name)
+    impl = run_iter_impls(inp, skip)
     ocost = None
     first_assign = {}
     for name in ("recursive", "nonrecursive", "numba"):
         mraw = models[name]
         out = impl[name]
+        if out[0] == "skipped":
+            continue
         if mraw in ("bad-op", "bad-perm", "nofuel", "none") or mraw.startswith("none"):
             res.violation("harness-error", "%s model answered %r" % (name, mraw))
             continue
